@@ -29,6 +29,8 @@ def finding_matches(f, prop, rec, verdict) -> bool:
 def run_check(prop: str, tier: str, seed: int) -> int:
     t0 = time.time()
     mod = importlib.import_module(prop.lower())
+    if tier == "thorough" and "VERIF_MODEL_STALL" not in os.environ:
+        core.MODEL_STALL = max(core.MODEL_STALL, 300.0)      # big thorough-tier cases: the list-based model is slow, not stuck
     st = core.prepare(prop, thorough=(tier == "thorough"))
     log(f"[{prop}] build {st.build_s:.1f}s built={st.built} driver={st.driver_ok} theorems={len(st.theorems)} discharged={len(st.discharged)} errors={len(st.errors)}")
     findings = core.load_findings()
